@@ -2084,7 +2084,7 @@ return 1;""",
                 declare=["{cxx_alloc_decl} = {nullptr};"],
                 pre_call=self.allocate_memory(
                     fmt.cxx_var, capsule_type, fmt,
-                    "goto fail", ast.typemap.base),
+                    "goto fail", ast.typemap.base, qualified=True),
                 fail=[
                     "if ({cxx_var} != {nullptr}) {{+\n"
                     "{PY_release_memory_function}({capsule_order}, {cxx_var});\n"
@@ -2094,7 +2094,7 @@ return 1;""",
         return None
         
     def allocate_memory(self, var, capsule_type, fmt,
-                        error, as_type):
+                        error, as_type, qualified=False):
         """Return code to allocate an item.
         Call PyErr_NoMemory if necessary.
         Set fmt.capsule_order which is used to release it.
@@ -2108,13 +2108,15 @@ return 1;""",
             fmt
             error   - error code ex. "goto fail" or "return -1"
             as_type - "struct", "vector", None
+            qualified - True if fmt.cxx_type already includes its namespace
+                        (the type of a function result).
         """
         lines = []
         if self.language == "c":
             alloc = var + " = malloc(sizeof({cxx_type}));"
             del_lines = ["free(ptr);"]
         else:
-            if as_type == "vector":
+            if as_type == "vector" or (as_type == "struct" and qualified):
                 alloc = var + " = new {cxx_type};"
             elif as_type == "struct":
                 alloc = var + " = new {namespace_scope}{cxx_type};"
